@@ -10,8 +10,11 @@ import Gzx.Proofs.QRSegments
 import Gzx.Proofs.QRInterleave
 import Gzx.Proofs.QRTolerance
 import Gzx.Proofs.QRMatrixRead
+import Gzx.Proofs.QRCompBlocks
+import Gzx.Proofs.QRCompStream
+import Gzx.Properties.C15
 namespace Gzx.Properties.C01
-open Gzx Gzx.QRDec Gzx.QRPack Gzx.ECI
+open Gzx Gzx.QRDec Gzx.QRPack Gzx.ECI Gzx.QRComp
 
 /-! ## character-count widths: the three version classes 1-9 | 10-26 | 27-40 -/
 
@@ -316,5 +319,172 @@ theorem qr_roundtrip_numeric_partial (T : Tables) (rs : List Nat → Nat → Res
   · unfold parse
     rw [h_stream]
     exact parse_numeric_stream T.eci v.num hint ds hd hlen tail ht
+
+/-! ## the composed round trip, in full: reference encoder (ISO/IEC 18004, `Gzx.QRRef`) → decoder model
+
+No layer hypotheses.  The Reed-Solomon decoder is the C04 model `Gzx.RS.decode` over `Gzx.GF.qrCode256`
+(`QRComp.rsQR`), the tables are any tables conforming to the standard (`QRComp.TablesConform T`, decidable,
+discharged for the tables regenerated from /repo by `Obligations.C01.tables_conform`), the symbol is the
+reference symbol of C07 (`QRRef.refMatrix`, which the `c07` oracle compares with the library's matrices). -/
+
+/-- the reference symbol for a payload bit string (mode indicator, count, data — before termination):
+    terminator + padding, block split + RS parity + interleaving, placement + masking + function patterns -/
+def refSymbol (v : Nat) (ec : QRRef.EC) (mask : Nat) (bits : List Bool) : Matrix :=
+  matrixOf (QRRef.refMatrix v ec mask
+    (QRRef.finalCodewords v ec (QRRef.terminate (QRRef.dataCodewords v ec) bits)))
+
+/-- `qr_roundtrip_bits` — the composition for an arbitrary payload: for every version 1..40, level, mask 0..7
+    and every payload that fits the data capacity, `Decoder.Decode` on the reference symbol succeeds on the
+    first attempt (not mirrored) and returns whatever the bit-stream parser makes of the payload followed by
+    a terminated tail, the level, the version and exactly the data codewords that were written. -/
+theorem qr_roundtrip_bits (T : Tables) (hT : TablesConform T) (hint : Hint) (v : Nat) (h1 : 1 ≤ v) (h40 : v ≤ 40)
+    (ec : QRRef.EC) (mask : Nat) (hm : mask < 8) (bits : List Bool)
+    (hfit : bits.length ≤ 8 * QRRef.dataCodewords v ec) (parsed : Parsed)
+    (hparse : ∀ tail, Terminated tail → parseStream T.eci (bits ++ tail) v hint = .ok parsed) :
+    decode T rsQR hint (refSymbol v ec mask bits) =
+      .ok ⟨parsed, toDecEC ec, v, QRRef.terminate (QRRef.dataCodewords v ec) bits, false⟩ := by
+  unfold refSymbol
+  generalize hdata : QRRef.terminate (QRRef.dataCodewords v ec) bits = data
+  have hd : data.length = QRRef.dataCodewords v ec := by
+    rw [← hdata]; exact QRRef.terminate_length _ _ hfit
+  have hb : ∀ x ∈ data, x < 256 := by rw [← hdata]; exact terminate_lt _ _
+  have hl := Gzx.Properties.C07.final_codewords_length v h1 h40 ec data hd
+  have hcb := QRRef.finalCodewords_lt v ec data hb
+  obtain ⟨q, short, long, hsplit, w, hq, h255, eb, heb, hec, hshape, htot⟩ :=
+    refBlocks_structure v h1 h40 ec data hd
+  have hcw : QRRef.finalCodewords v ec data = QRDec.interleave (short ++ long) := by
+    rw [finalCodewords_eq_interleave, hsplit]
+  have hdim : ¬ ((sym v ec mask (QRRef.finalCodewords v ec data)).dim < 21 ∨
+      (sym v ec mask (QRRef.finalCodewords v ec data)).dim % 4 ≠ 1) := by
+    rw [matrixOf_dim]; omega
+  have hplace := readCodewords_ref v h1 h40 ec mask _ hl hcb T hT
+  have := qr_roundtrip_partial T rsQR hint (sym v ec mask (QRRef.finalCodewords v ec data)) hdim (refVersion v) _
+    (readVersion_ref v h1 h40 ec mask _ T hT) (toDecEC ec, mask) _ (readFormat_ref v h1 h40 ec mask _ T hT hm)
+    (QRRef.finalCodewords v ec data) _ (Prod.ext hplace rfl)
+    ((short ++ long).map (fun b => (b.1.length, b.1 ++ b.2)))
+    (by rw [hcw]; exact QRDec.interleave_deinterleave w (refVersion v) (toDecEC ec) eb heb hec hshape htot)
+    data ?_ parsed ?_
+  · exact this
+  · have hflat : (short ++ long).flatMap (·.1) = data := by
+      rw [← hsplit]; exact refBlocks_data v h1 h40 ec data hd
+    rw [← hflat]
+    apply correctBlocks_map rsQR (short ++ long) (short ++ long) rfl
+    intro p hp
+    have hpp : p.1 = p.2 := by
+      obtain ⟨i, hi⟩ := List.getElem?_of_mem hp
+      rw [List.getElem?_zip_eq_some] at hi
+      exact Option.some.inj (hi.1.symm.trans hi.2)
+    rw [← hpp]
+    refine ⟨rfl, ?_⟩
+    have hmem : p.1 ∈ refBlocks v ec data := by rw [hsplit]; exact (List.of_mem_zip hp).1
+    obtain ⟨hpar, hne, hbytes, hecm⟩ := refBlocks_mem v h1 h40 ec data hd hb p.1 hmem
+    have hlen : (p.1.1 ++ p.1.2).length - p.1.1.length = QRRef.ecPerBlock v ec := by
+      rw [hpar]; simp [QRRef.rsParity_length]
+    rw [hlen, hpar]
+    exact rsQR_clean _ hecm p.1.1 hne hbytes
+  · unfold parse
+    obtain ⟨tail, hbits, hterm⟩ := terminate_stream (QRRef.dataCodewords v ec) bits hfit
+    rw [← hdata, hbits]
+    exact hparse tail hterm
+
+/-- payload length of a single-segment symbol -/
+theorem payload_length (v : Nat) (hdr : List Bool) (m : QRRef.Mode) (count : Nat) (data : List Bool) :
+    (QRRef.payloadBits v hdr m count data).length = hdr.length + QRRef.countBits m v + data.length := by
+  unfold QRRef.payloadBits
+  simp [QRRef.toBitsBE_length]
+  omega
+
+theorem flatMap_pair_length (ps : List (Nat × Nat)) : (ps.flatMap (fun p => [p.1, p.2])).length = 2 * ps.length := by
+  induction ps with
+  | nil => rfl
+  | cons p ps ih => rw [List.flatMap_cons, List.length_append, ih]; simp; omega
+
+theorem payload_segment (v : Nat) (m : QRRef.Mode) (k : Nat) (hk : QRRef.countBits m v = countWidth k v)
+    (count : Nat) (data : List Bool) :
+    QRRef.payloadBits v (QRRef.headerBits none false m) m count data =
+      segment m.indicator (countWidth k v) count data := by
+  unfold QRRef.payloadBits QRRef.headerBits segment
+  simp only [Bool.false_eq_true, if_false, List.nil_append, List.append_nil, toBitsBE_eq_natToBits, hk]
+
+/-- **`qr_roundtrip`, numeric mode** (7.4.3): every string of digits that fits (version, level) comes back as
+    its ASCII bytes, with the level and version, for every version 1..40, level and mask. -/
+theorem qr_roundtrip_numeric (T : Tables) (hT : TablesConform T) (hint : Hint) (v : Nat) (h1 : 1 ≤ v) (h40 : v ≤ 40)
+    (ec : QRRef.EC) (mask : Nat) (hm : mask < 8) (ds : List Nat) (hd : ∀ d ∈ ds, d < 10)
+    (hcount : ds.length < 2 ^ QRRef.countBits .numeric v)
+    (hfit : QRRef.fitsBits v ec .numeric (QRRef.headerBits none false .numeric).length
+      (QRRef.packNumeric ds).length = true) :
+    decode T rsQR hint (refSymbol v ec mask
+        (QRRef.payloadBits v (QRRef.headerBits none false .numeric) .numeric ds.length (QRRef.packNumeric ds))) =
+      .ok ⟨⟨[.raw (ds.map (48 + ·))], [], -1, -1, 1⟩, toDecEC ec, v,
+        QRRef.dataCodewordsOf v ec (QRRef.headerBits none false .numeric) .numeric ds.length (QRRef.packNumeric ds),
+        false⟩ := by
+  have hk := (countBits_eq v).1
+  apply qr_roundtrip_bits T hT hint v h1 h40 ec mask hm
+  · rw [payload_length]; simpa [QRRef.fitsBits] using hfit
+  · intro tail ht
+    rw [payload_segment v .numeric 0 hk, packNumeric_eq]
+    exact parse_numeric_stream T.eci v hint ds hd (by rw [← hk]; exact hcount) tail ht
+
+/-- **`qr_roundtrip`, alphanumeric mode** (7.4.4): character values 0..44 come back as the characters of Table 5 -/
+theorem qr_roundtrip_alnum (T : Tables) (hT : TablesConform T) (hint : Hint) (v : Nat) (h1 : 1 ≤ v) (h40 : v ≤ 40)
+    (ec : QRRef.EC) (mask : Nat) (hm : mask < 8) (cs : List Nat) (hc : ∀ c ∈ cs, c < 45)
+    (hcount : cs.length < 2 ^ QRRef.countBits .alnum v)
+    (hfit : QRRef.fitsBits v ec .alnum (QRRef.headerBits none false .alnum).length
+      (QRRef.packAlnum cs).length = true) :
+    decode T rsQR hint (refSymbol v ec mask
+        (QRRef.payloadBits v (QRRef.headerBits none false .alnum) .alnum cs.length (QRRef.packAlnum cs))) =
+      .ok ⟨⟨[.raw (cs.map alnumCharOf)], [], -1, -1, 1⟩, toDecEC ec, v,
+        QRRef.dataCodewordsOf v ec (QRRef.headerBits none false .alnum) .alnum cs.length (QRRef.packAlnum cs),
+        false⟩ := by
+  have hk := (countBits_eq v).2.1
+  apply qr_roundtrip_bits T hT hint v h1 h40 ec mask hm
+  · rw [payload_length]; simpa [QRRef.fitsBits] using hfit
+  · intro tail ht
+    rw [payload_segment v .alnum 1 hk, packAlnum_eq]
+    exact parse_alnum_stream T.eci v hint cs hc (by rw [← hk]; exact hcount) tail ht
+
+/-- **`qr_roundtrip`, byte mode without ECI header** (7.4.5): the bytes come back unchanged, labelled with the
+    character set `guessCharset` picks for them (hint honoured, UTF-8 detected: C15) -/
+theorem qr_roundtrip_byte (T : Tables) (hT : TablesConform T) (hint : Hint) (v : Nat) (h1 : 1 ≤ v) (h40 : v ≤ 40)
+    (ec : QRRef.EC) (mask : Nat) (hm : mask < 8) (bs : List Nat) (hb : ∀ b ∈ bs, b < 256)
+    (hcount : bs.length < 2 ^ QRRef.countBits .byte v)
+    (charset : Charset) (hcs : guessCharset T.eci bs hint = .ok charset)
+    (hfit : QRRef.fitsBits v ec .byte (QRRef.headerBits none false .byte).length
+      (QRRef.bitsOfBytes bs).length = true) :
+    decode T rsQR hint (refSymbol v ec mask
+        (QRRef.payloadBits v (QRRef.headerBits none false .byte) .byte bs.length (QRRef.bitsOfBytes bs))) =
+      .ok ⟨⟨[.text charset bs], [bs], -1, -1, 1⟩, toDecEC ec, v,
+        QRRef.dataCodewordsOf v ec (QRRef.headerBits none false .byte) .byte bs.length (QRRef.bitsOfBytes bs),
+        false⟩ := by
+  have hk := (countBits_eq v).2.2.1
+  apply qr_roundtrip_bits T hT hint v h1 h40 ec mask hm
+  · rw [payload_length]; simpa [QRRef.fitsBits] using hfit
+  · intro tail ht
+    rw [payload_segment v .byte 2 hk, bitsOfBytes_eq]
+    exact parse_byte_stream T.eci v hint bs hb (by rw [← hk]; exact hcount) charset hcs tail ht
+
+/-- **`qr_roundtrip`, Kanji mode** (7.4.6): Shift_JIS double-byte characters of the two Kanji ranges come back as
+    their byte pairs, labelled Shift_JIS -/
+theorem qr_roundtrip_kanji (T : Tables) (hT : TablesConform T) (hint : Hint) (v : Nat) (h1 : 1 ≤ v) (h40 : v ≤ 40)
+    (ec : QRRef.EC) (mask : Nat) (hm : mask < 8) (ps : List (Nat × Nat)) (hp : ∀ p ∈ ps, kanjiPairOK p)
+    (hcount : ps.length < 2 ^ QRRef.countBits .kanji v)
+    (hfit : QRRef.fitsBits v ec .kanji (QRRef.headerBits none false .kanji).length
+      (QRPack.packKanji ps).length = true) :
+    QRRef.encodeData .kanji (ps.flatMap (fun p => [p.1, p.2])) = some (ps.length, QRPack.packKanji ps) ∧
+    decode T rsQR hint (refSymbol v ec mask
+        (QRRef.payloadBits v (QRRef.headerBits none false .kanji) .kanji ps.length (QRPack.packKanji ps))) =
+      .ok ⟨⟨[.text .sjis (ps.flatMap (fun p => [p.1, p.2]))], [], -1, -1, 1⟩, toDecEC ec, v,
+        QRRef.dataCodewordsOf v ec (QRRef.headerBits none false .kanji) .kanji ps.length (QRPack.packKanji ps),
+        false⟩ := by
+  have hk := (countBits_eq v).2.2.2
+  constructor
+  · unfold QRRef.encodeData
+    simp only [QRComp.packKanji_eq ps hp, Option.map_some]
+    rw [flatMap_pair_length]; simp
+  · apply qr_roundtrip_bits T hT hint v h1 h40 ec mask hm
+    · rw [payload_length]; simpa [QRRef.fitsBits] using hfit
+    · intro tail ht
+      rw [payload_segment v .kanji 3 hk]
+      exact parse_kanji_stream T.eci v hint ps hp (by rw [← hk]; exact hcount) tail ht
 
 end Gzx.Properties.C01
